@@ -100,6 +100,13 @@ CLAIMED = {
   'design_ref': 'DESIGN.md section 5 C11',
   'note': 'Trusted: Verus/Z3; evaluators/scopes opaque; closure lifting R4 ties each closure to the builder name / typeRef literal it sits under. Not decided: component/referenced item definitions, dispatch match arms, where coercion is applied.',
  },
+ 'C18': {
+  'text': 'Partial (definitions endpoints only). Verus proves on the real handler bodies that clear/add/replace/remove/deploy perform exactly the workspace operation the endpoint names on the model decoded from the request '
+          '(replace substitutes the stored model), report the workspace operation\'s failure as an error, and leave the workspace unchanged on every malformed-request path (missing content, invalid base64, invalid UTF-8, '
+          'unparsable model); together with the workspace representation invariant of C17.',
+  'design_ref': 'DESIGN.md section 5 C18',
+  'note': 'Not decided: well-formedness of the JSON text (jsonify / serde: string code; strings are not escaped - a defect this family cannot decide), TCK DTO round trip (pending), actix routing, body limits, lock poisoning, survival after malformed requests.',
+ },
 }
 NOT_APPLICABLE = {
  'C02': TODO,
@@ -107,6 +114,6 @@ NOT_APPLICABLE = {
 
  'C07': 'deciding code is str/format!/C decNumber string conversion (scientific_to_plain, decQuadToString); Verus has no specs for these str APIs and Kani/CBMC did not finish a 3-character instance in 15 min (DESIGN.md section 6)',
  'C10': TODO, 'C13': TODO,
- 'C18': TODO, 'C19': TODO,
+ 'C19': TODO,
  'C20': 'a schedule property: Kani has no thread support and Verus would need the code rewritten onto its own permission/atomic types; Send+Sync is checked by rustc, not by this family (DESIGN.md section 6)',
 }
